@@ -53,6 +53,8 @@ def run_replay(prop, hints, out_path, unit=None):
         fams.append("defn")
     if unit in P.INV_UNITS:
         fams.append("inv")
+    if unit in ("kwargs_from_call", "resolve_kwdefaults"):
+        fams.append("bind")
     if unit in getattr(P, "EXPR_UNITS", ()):
         fams.append("expr")
     for f in (pf, "call"):
@@ -179,6 +181,21 @@ def main(argv):
         vpath = os.path.join("replays", "%s-%s.json" % (prop, h))
         json.dump(doc, open(os.path.join(HERE, vpath), "w"), indent=1, default=str)
         violations.append((gname, vpath, reproduced))
+
+    # a unit that left the verified subset (an edit introduced a construct pyvc has no rule for) proves nothing; it is
+    # a violation only if the replay families exhibit a failing input on the real tree, otherwise it stays undecided
+    for rep in units:
+        if not getattr(rep, "error", None) or not hasattr(rep, "uname"):
+            continue
+        h = hashlib.sha256((prop + "unsupported:" + rep.uname).encode()).hexdigest()[:10]
+        vpath = os.path.join("replays", "%s-%s.json" % (prop, h))
+        rres = run_replay(prop, cfg.get("hints", []), os.path.join(HERE, vpath), rep.uname)
+        if rres and rres.get("found"):
+            doc = {"property": prop, "failed_obligation": "%s: no obligation of this unit could be generated (%s); the replay family exhibits a failing input" % (rep.uname, rep.error),
+                   "unit": rep.unit.describe(), "replay": rres, "program": rres.get("program"),
+                   "how_to_replay": "PYTHONPATH=%s /venv/bin/python %s/replay/%s --scenario <this file>" % (REPO, HERE, rres.get("family"))}
+            json.dump(doc, open(os.path.join(HERE, vpath), "w"), indent=1, default=str)
+            violations.append(("unsupported:" + rep.uname, vpath, True))
 
     # bounded stand-ins for units outside the verifier's reach (labelled bounded, never counted as proved)
     bounded_report = []
